@@ -170,6 +170,81 @@ def explore(ctx):
         elif not v & 1:
             ctx.corr_mismatch(case, "Gallina swap_glyph_names differs from instantiator.swap_glyph_names")
     fixture_rules(ctx)
+    generated_rules(ctx)
+
+
+def active_subs(rules, location, glyph_names):
+    """the substitutions in force at a location, stated independently: rules in document order, a rule applies when one of
+    its condition sets holds (every condition: minimum <= value <= maximum), each of its subs whose first glyph exists
+    is applied, in order -- a sub listed by two active rules is applied twice"""
+    out = []
+    for r in rules:
+        ok = False
+        for cs in r.conditionSets:
+            if all((c.get("minimum") is None or location[c["name"]] >= c["minimum"]) and
+                   (c.get("maximum") is None or location[c["name"]] <= c["maximum"]) for c in cs):
+                ok = True
+        if ok:
+            out += [(a, b) for a, b in r.subs if a in glyph_names]
+    return out
+
+
+def generated_rules(ctx):
+    """designspace rules generated at random (overlapping ranges, the same sub in several rules, chains, a sub naming a
+    glyph that does not exist): the instance must equal the rule-free instance with the active swaps applied in order"""
+    from ufo2ft.instantiator import Instantiator, swap_glyph_names
+    from fontTools.designspaceLib import InstanceDescriptor, RuleDescriptor
+    rng = ctx.subrng("rules")
+    for i in range(ctx.budget(10, 60)):
+        lib = "ufoLib2"        # (defcon recurses on mutually referencing swaps: observation O6)
+        base = dsgen.base_master(rng, max_depth=1)
+        masters = [base, dsgen.perturb(rng, base, 1)]
+        names = [g["name"] for g in base["glyphs"]]
+        pairs = [(names[0], names[1]), (names[1], names[2]), (names[2], names[0]), ("ghost", names[0])]
+
+        def with_rules(add):
+            ds, fonts = dsgen.make_designspace(random.Random(i), masters, lib)
+            if add:
+                rr = random.Random(1000 + i + 7919 * ctx.scale)
+                for k in range(rr.randint(1, 3)):
+                    r = RuleDescriptor()
+                    r.name = "rule%d" % k
+                    lo = rr.choice([100, 300, 500, 700])
+                    r.conditionSets = [[{"name": "Weight", "minimum": lo, "maximum": rr.choice([lo + 200, 900, 900])}]]
+                    r.subs = [pairs[0]] if k < 2 and rr.random() < 0.7 else rr.sample(pairs, rr.randint(1, 2))
+                    ds.addRule(r)
+            return ds, fonts
+        import random
+        ds_r, _ = with_rules(True)
+        ds_p, _ = with_rules(False)
+        try:
+            inst_r = Instantiator.from_designspace(ds_r, round_geometry=True)
+            inst_p = Instantiator.from_designspace(ds_p, round_geometry=True)
+        except Exception as e:
+            ctx.spec_failure({"font": jsonable(base)}, "Instantiator.from_designspace raised %s: %s" % (type(e).__name__, e))
+            continue
+        for loc in (100, 400, 600, 800, 900):
+            d = InstanceDescriptor()
+            d.familyName, d.styleName, d.location = "Fam", "I%d" % loc, {"Weight": loc}
+            subs = active_subs(ds_r.rules, {"Weight": loc}, set(names))
+            case = {"font": jsonable(base), "master1": jsonable(masters[1]), "location": loc,
+                    "rules": [[r.name, r.conditionSets, [list(x) for x in r.subs]] for r in ds_r.rules], "active_subs_in_order": [list(x) for x in subs]}
+            ctx.count(); ctx.klass("generated rules: %d active subs" % min(len(subs), 3))
+            if subs:
+                ctx.nontriv(("rules", i, loc, ctx.scale))
+            try:
+                f = inst_r.generate_instance(d)
+                ref = inst_p.generate_instance(d)
+                for a, b in subs:
+                    if a != b:
+                        swap_glyph_names(ref, a, b)
+            except Exception as e:
+                ctx.spec_failure(case, "generate_instance / swap raised %s: %s" % (type(e).__name__, e))
+                continue
+            sf, sr = snap.font_snapshot(f), snap.font_snapshot(ref)
+            if sf != sr:
+                ctx.spec_failure(case, "instance with rules differs from the rule-free instance with the active substitutions applied in order: %s" % (
+                    "; ".join(snap.diff(sr, sf)[:4])))
 
 
 def fixture_rules(ctx):
